@@ -1103,7 +1103,21 @@ def detection(ctx, rep):
         ls4, calls4 = _search_summary(None, 'lang', per_word_lang=ln)
         I4 = mk_interp(P, extra={'lang_search': ls4}); st4 = State()
         a = setup(I4, st4)
-        outs4 = I4.run(g, [a[0], Ptr('g:' + ln, 0), a[1]], st4)
+        try:
+            outs4 = I4.run(g, [a[0], Ptr('g:' + ln, 0), a[1]], st4)
+        except Unmodelled as e4:
+            if 'budget' not in str(e4): raise
+            # the 2^16 lookup outcomes do not collapse to 17 (no exit at the first failure?): decide the necessary condition "one unknown word -> ERR_LANG" word by word
+            for k in range(16):
+                ls6, _ = _search_summary(None, 'lang', per_word_lang=ln)
+                I6 = mk_interp(P, extra={'lang_search': ls6}); st6 = State()
+                for j in range(16): st6.cons.add(I6.V.bit('W[%d]' % j), 0 if j == k else 1)
+                a6 = setup(I6, st6)
+                for o in I6.run(g, [a6[0], Ptr('g:' + ln, 0), a6[1]], st6):
+                    rv = inv.get(o.ret.concrete(), str(o.ret))
+                    rep.check(rv == 'POLYSEED_ERR_LANG', 'explicit: only word %d unknown -> %s' % (k, rv), wg, 'phrase_decode_explicit', detail={'status': rv, 'unknown_word': k}, key='DETECT-WORD|explicit|single-miss')
+            if not rep.violations: raise
+            continue
         for o in outs4:
             C = o.state.cons
             W = [C.reduce(I4.V.bit('W[%d]' % k)) for k in range(16)]
